@@ -47,6 +47,34 @@ func (r *Resp) Get(name string) string {
 	return ""
 }
 
+// Values returns all values of a header, matching the name case-insensitively (names
+// are kept as sent; with DisableHeaderNormalizing they need not be canonical).
+func (r *Resp) Values(name string) []string {
+	if v, ok := r.Header[name]; ok {
+		return v
+	}
+	var ks []string
+	for k := range r.Header {
+		if strings.EqualFold(k, name) {
+			ks = append(ks, k)
+		}
+	}
+	sort.Strings(ks)
+	var out []string
+	for _, k := range ks {
+		out = append(out, r.Header[k]...)
+	}
+	return out
+}
+
+// GetFold is Get with a case-insensitive name.
+func (r *Resp) GetFold(name string) string {
+	if v := r.Values(name); len(v) > 0 {
+		return v[0]
+	}
+	return ""
+}
+
 // HeaderString is a canonical rendering without Date.
 func (r *Resp) HeaderString() string {
 	var names []string
@@ -88,6 +116,15 @@ func (c *Conn) Do(raw []byte) *Resp {
 	ctx.Response.Reset()
 	br := bufio.NewReaderSize(bytes.NewReader(raw), 4096)
 	res := &Resp{}
+	// per-request server settings that fasthttp's connection loop applies (exported ones)
+	srv := c.App.Server()
+	if srv.DisableHeaderNamesNormalizing {
+		ctx.Request.Header.DisableNormalizing()
+		ctx.Response.Header.DisableNormalizing()
+	}
+	if srv.Name != "" {
+		ctx.Response.Header.SetServer(srv.Name)
+	}
 	if err := ctx.Request.ReadLimitBody(br, c.MaxBody); err != nil {
 		res.ReadErr = err
 		ctx.Response.Reset()
@@ -101,6 +138,9 @@ func (c *Conn) Do(raw []byte) *Resp {
 	}
 	if ctx.IsHead() {
 		ctx.Response.SkipBody = true
+	}
+	if srv.Name != "" && len(ctx.Response.Header.Server()) == 0 {
+		ctx.Response.Header.SetServer(srv.Name)
 	}
 	var out bytes.Buffer
 	bw := bufio.NewWriter(&out)
